@@ -487,3 +487,84 @@ Proof.
   - right; eauto.
   - exfalso. apply PT. unfold ipv6_parse. rewrite C. reflexivity.
 Qed.
+
+Lemma ndopt_flags_tab : forallb (fun x => is_u8 (Z.land x 192) && (Z.land (Z.land x 192) 192 =? Z.land x 192)) (ztab 256) = true.
+Proof. vm_compute. reflexivity. Qed.
+
+Lemma ndopt_lladdr_read bs l : bytes_ok bs = true -> 1 <= l -> l * 8 <= blen bs ->
+  exists a, wb_sub bs 2 (Z.min 8 (l * 8 - 2) + 2) = Ok a /\ ndopt_lladdr_ok a = true.
+Proof.
+  intros Hb Hl Hlen.
+  destruct (wb_sub_ok_len bs 2 (Z.min 8 (l * 8 - 2) + 2) ltac:(lia) ltac:(lia)) as (a & Ha & La & Ba).
+  exists a. split; [assumption|]. unfold ndopt_lladdr_ok. rewrite (Ba Hb). cbn [andb].
+  destruct (Z.eq_dec l 1) as [->|]; [replace (blen a) with 6 by lia | replace (blen a) with 8 by lia]; reflexivity.
+Qed.
+
+(* Repr::parse on octets returns a well-formed representation or an error - never panics *)
+Lemma ndopt_parse_ok_or_err bs : bytes_ok bs = true ->
+  (exists r, ndopt_parse bs = Ok r /\ ndopt_wf r = true) \/ (exists e, ndopt_parse bs = Err e).
+Proof.
+  intros Hb. unfold ndopt_parse.
+  destruct (ndopt_check_len bs) as [[]|e|] eqn:C; cbn [obind];
+    [ | right; eauto | exfalso; exact (ndopt_check_len_total bs C) ].
+  destruct (ndopt_check_len_inv bs Hb C) as (t & l & Ht & Hl & Rt & Rl & L8 & Ll & L3 & L4).
+  unfold ndopt_option_type, ndopt_data_len. zfold. rewrite Ht, Hl. cbn [obind].
+  unfold ndopt_T_SLLA, ndopt_T_TLLA, ndopt_T_PREFIX, ndopt_T_REDIR, ndopt_T_MTU.
+  destruct (t =? 1) eqn:T1; [|destruct (t =? 2) eqn:T2; [|destruct (t =? 3) eqn:T3;
+    [|destruct (t =? 4) eqn:T4; [|destruct (t =? 5) eqn:T5]]]]; bsplit.
+  - destruct (l >=? 1) eqn:E; [|right; eauto]. bsplit.
+    unfold ndopt_link_layer_addr, ndopt_data_len. zfold. rewrite Hl. cbn [obind]. unfold wb_assert. zbool. cbn [obind].
+    destruct (ndopt_lladdr_read bs l Hb ltac:(lia) Ll) as (a & -> & Wa). cbn [obind]. left. eauto.
+  - destruct (l >=? 1) eqn:E; [|right; eauto]. bsplit.
+    unfold ndopt_link_layer_addr, ndopt_data_len. zfold. rewrite Hl. cbn [obind]. unfold wb_assert. zbool. cbn [obind].
+    destruct (ndopt_lladdr_read bs l Hb ltac:(lia) Ll) as (a & -> & Wa). cbn [obind]. left. eauto.
+  - destruct (l =? 4) eqn:E; [|right; eauto]. bsplit. subst l. specialize (L3 ltac:(lia)).
+    unfold ndopt_prefix_len, ndopt_prefix_flags, ndopt_valid_lifetime, ndopt_preferred_lifetime, ndopt_prefix,
+      wb_field. zfold.
+    destruct (wb_get_u8_byte bs 2 ltac:(lia) Hb) as (pl & -> & Rpl).
+    destruct (wb_get_u8_byte bs 3 ltac:(lia) Hb) as (fl & -> & Rfl). cbn [obind].
+    destruct (wb_get_u32_ok' bs wndiscopt_f_VALID_LT) as (vl & -> & Rvl); try (zfold; lia); try assumption.
+    destruct (wb_get_u32_ok' bs wndiscopt_f_PREF_LT) as (pf & -> & Rpf); try (zfold; lia); try assumption.
+    cbn [obind].
+    destruct (wb_sub_ok_len bs 16 32 ltac:(lia) ltac:(lia)) as (px & -> & Lpx & Bpx). cbn [obind].
+    unfold wb_arr. rewrite Lpx. zfold. cbn [obind]. left. eexists. split; [reflexivity|].
+    cbn [ndopt_wf]. unfold ndopt_prefix_info_wf, ndopt_PREFIX_FLAGS_MASK.
+    cbn [ndpi_prefix_len ndpi_flags ndpi_valid ndpi_preferred ndpi_prefix].
+    pose proof (tab1 256 _ ndopt_flags_tab fl Rfl) as Tf. cbv beta in Tf. apply andb_prop in Tf. destruct Tf as [Tf1 Tf2].
+    rewrite Tf1, Tf2. unfold is_u8, is_u32, is_arr. rewrite Lpx, (Bpx Hb). zbool. reflexivity.
+  - destruct (l <? 6) eqn:E; [right; eauto|]. bsplit.
+    unfold ndopt_data, ndopt_data_len, wb_field, ndopt_f_DATA. zfold. rewrite Hl. cbn [obind fst snd].
+    destruct (wb_sub_ok_len bs 2 (l * 8) ltac:(lia) ltac:(lia)) as (d & -> & Ld & Bd). cbn [obind].
+    rewrite wb_from_ok by lia. cbn [obind].
+    apply (ndopt_parse_redir_tail_ok (skipn (Z.to_nat 6) d)).
+    + apply bytes_ok_skipn, Bd, Hb.
+    + rewrite blen_skipn by lia. lia.
+  - destruct (l =? 1) eqn:E; [|right; eauto]. bsplit. unfold ndopt_mtu.
+    destruct (wb_get_u32_ok' bs wndiscopt_f_MTU) as (m & -> & Rm); try (zfold; lia); try assumption.
+    cbn [obind]. left. eexists. split; [reflexivity|]. cbn [ndopt_wf]. unfold is_u32. zbool. reflexivity.
+  - destruct (l =? 0) eqn:E; cbn [negb]; [right; eauto|]. bsplit.
+    unfold ndopt_data, ndopt_data_len, wb_field, ndopt_f_DATA. zfold. rewrite Hl. cbn [obind fst snd].
+    destruct (wb_sub_ok_len bs 2 (l * 8) ltac:(lia) ltac:(lia)) as (d & -> & Ld & Bd). cbn [obind].
+    left. eexists. split; [reflexivity|]. cbn [ndopt_wf]. unfold ndopt_type_known, is_u8.
+    rewrite (Bd Hb), Ld. zbool.
+    destruct (1 <=? t) eqn:A1; [destruct (t <=? 5) eqn:A2|]; bsplit; try reflexivity. exfalso. lia.
+Qed.
+
+Lemma ndopt_parse_total bs : bytes_ok bs = true -> ndopt_parse bs <> Panic.
+Proof. intros Hb. destruct (ndopt_parse_ok_or_err bs Hb) as [(r & -> & _) | (e & ->)]; discriminate. Qed.
+
+Lemma ndopt_parse_wf bs r : bytes_ok bs = true -> ndopt_parse bs = Ok r -> ndopt_wf r = true.
+Proof.
+  intros Hb H. destruct (ndopt_parse_ok_or_err bs Hb) as [(r' & H' & W) | (e & H')]; rewrite H in H'.
+  - injection H' as ->. exact W.
+  - discriminate.
+Qed.
+
+Lemma ndopt_reparse bs r : bytes_ok bs = true -> ndopt_parse bs = Ok r ->
+  ndopt_wf r = true /\
+  forall b, blen b = ndopt_buffer_len r ->
+    exists bs', ndopt_emit r b = Ok bs' /\ ndopt_parse bs' = Ok r.
+Proof.
+  intros Hb H. pose proof (ndopt_parse_wf bs r Hb H) as Hwf. split; [assumption|].
+  intros b Hlen. destruct (ndopt_roundtrip r b Hwf Hlen) as (bs' & He & _ & Hp). eauto.
+Qed.
